@@ -1,4 +1,5 @@
-(* C04 — proofs about model/ExecStack.v (ExecutionStack::pop_next and the poll_execute loop).
+(* C04 — proofs about model/ExecStack.v (ExecutionStack::pop_next with AbandonOperator /
+   next_to_finalize, commit 131551599, and the poll_execute loop).
    Every theorem about runs quantifies over ALL runs from `new n` (any n >= 1, any answers), by
    invariant + induction.  A history `h : list ev` lists the Effects calls NEWEST FIRST; so
    `h = post ++ e2 :: mid ++ e1 :: pre` reads "e1 was called before e2". *)
@@ -32,21 +33,23 @@ Proof.
   apply IH. apply reach_pop. exact R.
 Qed.
 
-(* case analysis of one pop_next; leaves one goal per source branch, with
-   Ea : on_exec p = ..  /  Ef : on_fin p = ..  and the is_last test decided *)
+Definition mk (n : nat) : stack := {| nops := n; instrs := [IExec 0 true]; ntf := 1 |}.
+
+(* case analysis of one pop_next; leaves one goal per source branch *)
 Ltac pop_cases s p :=
-  let n0 := fresh "n0" in let l := fresh "l" in let op := fresh "op" in
+  let n0 := fresh "n0" in let l := fresh "l" in let f0 := fresh "f0" in let op := fresh "op" in
   let st := fresh "st" in let rest := fresh "rest" in
   let Ea := fresh "Ea" in let Ef := fresh "Ef" in let Ez := fresh "Ez" in
-  unfold nx, ctl, cl, pop_next in *; destruct s as [n0 l]; cbn [instrs nops] in *;
-  destruct l as [|[op st|op] rest];
+  unfold nx, ctl, cl, pop_next in *; destruct s as [n0 l f0]; cbn [instrs nops ntf] in *;
+  destruct l as [|[op st|op|op] rest];
   [ | destruct (on_exec p) as [[| | | |]|] eqn:Ea
-    | destruct (Nat.eqb_spec op 0) as [Ez|Ez]; [|destruct (on_fin p) as [[| |]|] eqn:Ef] ];
-  unfold is_last, with_instrs in *; cbn [nops instrs fst snd] in *;
+    | destruct (Nat.eqb_spec op 0) as [Ez|Ez]; [|destruct (on_fin p) as [[| |]|] eqn:Ef]
+    | destruct (on_fin p) as [[| |]|] eqn:Ef ];
+  unfold is_last, with_instrs, with_both in *; cbn [nops instrs ntf fst snd] in *;
   repeat match goal with
   | |- context [?a =? ?b] => destruct (Nat.eqb_spec a b)
   | H : context [?a =? ?b] |- _ => destruct (Nat.eqb_spec a b)
-  end; cbn [nops instrs fst snd] in *.
+  end; cbn [nops instrs ntf fst snd] in *.
 
 (* ---------- 1. re-poll after Pending goes to the operator that parked ---------- *)
 Theorem stack_replays_after_pending s p s' c :
@@ -62,33 +65,85 @@ Proof.
     intros p'. unfold cl, pop_next. cbn [instrs]. unfold is_last. cbn [nops].
     destruct (Nat.eqb_spec op 0); [contradiction|].
     destruct (on_fin p') as [[| |]|]; try reflexivity; destruct (op =? n0 - 1); reflexivity.
+  - split; [reflexivity|]. split; [eexists; right; reflexivity|].
+    intros p'. unfold cl, pop_next. cbn [instrs].
+    destruct (on_fin p') as [[| |]|]; reflexivity.
 Qed.
 Example stack_replays_after_pending_hyps :
   exists s p s' c, pop_next s p = (s', Pending, c).
 Proof.
-  exists {| nops := 2; instrs := [IExec 0 true] |}, {| on_exec := ROk XPending; on_fin := RErr |}.
+  exists (mk 2), {| on_exec := ROk XPending; on_fin := RErr |}.
   eexists. eexists. reflexivity.
 Qed.
 
 (* ---------- shape of reachable stacks ---------- *)
-Definition iop (x : instr) : nat := match x with IExec op _ => op | IFin op => op end.
+(* the stack without its IAbandon instructions behaves exactly like the pre-131551599 stack *)
+Fixpoint strip (l : list instr) : list instr :=
+  match l with
+  | [] => []
+  | IAbandon _ :: r => strip r
+  | x :: r => x :: strip r
+  end.
+
+Lemma strip_abandons l tl : strip (map IAbandon l ++ tl) = strip tl.
+Proof. induction l as [|a l IH]; cbn [map app strip]; auto. Qed.
+
+Definition iop (x : instr) : nat := match x with IExec op _ => op | IFin op => op | IAbandon op => op end.
 Definition is_upper (x : instr) : bool := match x with IExec _ false => true | _ => false end.
 Definition rank (x : instr) : nat :=
-  match x with IExec i false => 2 * i | IExec i true => 2 * i + 1 | IFin b => 2 * b - 1 end.
+  match x with IExec i false => 2 * i | IExec i true => 2 * i + 1 | IFin b => 2 * b - 1 | IAbandon _ => 0 end.
 
-(* head = top.  Only the bottom element may be a pipeline start or a finalize; everything above is
-   a non-start execute; ranks strictly decrease downwards. *)
+(* (of the stripped stack) head = top.  Only the bottom element may be a pipeline start or a
+   finalize; everything above is a non-start execute; ranks strictly decrease downwards. *)
 Fixpoint wf (n : nat) (l : list instr) : Prop :=
   match l with
   | [] => True
   | x :: rest =>
-      iop x < n /\ (match x with IFin b => 1 <= b | _ => True end) /\
+      iop x < n /\ (match x with IFin b => 1 <= b | IAbandon _ => False | _ => True end) /\
       (match rest with [] => True | y :: _ => is_upper x = true /\ rank y < rank x end) /\
       wf n rest
   end.
 
 Lemma wf_tail n x l : wf n (x :: l) -> wf n l.
 Proof. cbn [wf]. tauto. Qed.
+
+(* where IAbandon instructions sit: in increasing operator order going down, directly above the
+   IFin at the bottom, never above an execute; IFin and pipeline starts are at the very bottom *)
+Definition ab_head (x : instr) (rest : list instr) : Prop :=
+  match x, rest with
+  | IAbandon j, IAbandon j' :: _ => j < j'
+  | IAbandon j, IFin b :: _ => j + 2 <= b
+  | IAbandon j, IExec _ _ :: _ => False
+  | IFin _, _ :: _ => False
+  | IExec _ true, _ :: _ => False
+  | _, _ => True
+  end.
+Fixpoint ab_ok (l : list instr) : Prop :=
+  match l with [] => True | x :: rest => ab_head x rest /\ ab_ok rest end.
+
+Lemma ab_ok_tail x l : ab_ok (x :: l) -> ab_ok l.
+Proof. cbn [ab_ok]. tauto. Qed.
+
+Lemma ab_ok_seq b : forall len a, len = 0 \/ a + len + 1 <= b -> ab_ok (map IAbandon (seq a len) ++ [IFin b]).
+Proof.
+  induction len as [|len IH]; intros a H; cbn [seq map app ab_ok ab_head]; [auto|].
+  destruct H as [H|H]; [discriminate|].
+  split; [|apply IH; right; lia]. destruct len; cbn [seq map app]; lia.
+Qed.
+
+Definition is_exec (x : instr) : bool := match x with IExec _ _ => true | _ => false end.
+
+Lemma ab_above : forall rest j, ab_ok (IAbandon j :: rest) ->
+  Forall (fun y => is_exec y = false /\ j < iop y) rest.
+Proof.
+  induction rest as [|y r IH]; intros j H; [constructor|].
+  cbn [ab_ok] in H. destruct H as (H1 & H2 & H3).
+  destruct y as [i st|b|j']; cbn [ab_head] in H1; [contradiction| |].
+  - constructor; [cbn; split; [reflexivity|lia]|]. destruct r; [constructor|cbn [ab_head] in H2; contradiction].
+  - constructor; [cbn; split; [reflexivity|lia]|].
+    assert (A : ab_ok (IAbandon j' :: r)) by (cbn [ab_ok]; auto).
+    eapply Forall_impl; [|apply (IH j' A)]. cbn. intros w [W1 W2]. split; [exact W1|lia].
+Qed.
 
 (* ---------- history bookkeeping ---------- *)
 Definition fe_of (e : ev) : nat :=
@@ -100,7 +155,6 @@ Definition fe_of (e : ev) : nat :=
   end.
 Definition ff_of (e : ev) : nat :=
   match e with
-  | EvExec i (ROk XExhausted) => S i
   | EvFin j (ROk FFinalized) => S j
   | EvFin j (ROk FNeedsDrain) => S j
   | _ => 0
@@ -109,8 +163,11 @@ Definition ff_of (e : ev) : nat :=
 Fixpoint floor_e (h : list ev) : nat := match h with [] => 0 | e :: pre => Nat.max (fe_of e) (floor_e pre) end.
 Fixpoint floor_f (h : list ev) : nat := match h with [] => 0 | e :: pre => Nat.max (ff_of e) (floor_f pre) end.
 
+(* why a handle_finalize(j) call is legitimate: the predecessor is exhausted or finalized
+   (FinalizeOperator), or some operator downstream of j is exhausted (AbandonOperator) *)
 Definition justified (j : nat) (h : list ev) : Prop :=
-  In (EvExec (j - 1) (ROk XExhausted)) h \/ In (EvFin (j - 1) (ROk FFinalized)) h.
+  In (EvExec (j - 1) (ROk XExhausted)) h \/ In (EvFin (j - 1) (ROk FFinalized)) h \/
+  exists k, j < k /\ In (EvExec k (ROk XExhausted)) h.
 
 Definition ev_ok (pre : list ev) (e : ev) : Prop :=
   match e with
@@ -120,22 +177,15 @@ Definition ev_ok (pre : list ev) (e : ev) : Prop :=
 Fixpoint hist_ok (h : list ev) : Prop :=
   match h with [] => True | e :: pre => ev_ok pre e /\ hist_ok pre end.
 
-Definition instr_ok (h : list ev) (x : instr) : Prop :=
+Definition instr_ok (f : nat) (h : list ev) (x : instr) : Prop :=
   match x with
-  | IExec op _ => floor_e h <= op
-  | IFin k => floor_f h <= k /\ justified k h
+  | IExec op _ => floor_e h <= op /\ f <= S op
+  | IFin b => floor_f h <= b /\ floor_e h <= b /\ justified b h /\ f <= b /\
+              (b <= f \/ (b <= S f /\ In (EvExec (b - 1) (ROk XExhausted)) h))
+  | IAbandon j => floor_f h <= j /\ 1 <= j /\ j < f /\ S (S j) <= floor_e h /\ justified j h
   end.
 
 Definition ev_op (e : ev) : nat := match e with EvExec i _ => i | EvFin j _ => j end.
-
-Lemma fe_le_ff e : fe_of e <= ff_of e.
-Proof. destruct e as [i [[| | | |]|]|j [[| |]|]]; cbn; lia. Qed.
-Lemma ff_le_Sfe e : ff_of e <= S (fe_of e).
-Proof. destruct e as [i [[| | | |]|]|j [[| |]|]]; cbn; lia. Qed.
-Lemma floor_e_le_f h : floor_e h <= floor_f h.
-Proof. induction h as [|e h IH]; cbn [floor_e floor_f]; [lia|]. pose proof (fe_le_ff e). lia. Qed.
-Lemma floor_f_le_Se h : floor_f h <= S (floor_e h).
-Proof. induction h as [|e h IH]; cbn [floor_e floor_f]; [lia|]. pose proof (ff_le_Sfe e). lia. Qed.
 
 Lemma floor_e_app post pre : floor_e pre <= floor_e (post ++ pre).
 Proof. induction post as [|e post IH]; cbn [app floor_e]; lia. Qed.
@@ -143,32 +193,52 @@ Lemma floor_f_app post pre : floor_f pre <= floor_f (post ++ pre).
 Proof. induction post as [|e post IH]; cbn [app floor_f]; lia. Qed.
 
 Lemma justified_cons j e h : justified j h -> justified j (e :: h).
-Proof. unfold justified. cbn [In]. tauto. Qed.
+Proof. unfold justified. cbn [In]. intros [H|[H|(k & K1 & K2)]]; auto. right. right. exists k. auto. Qed.
 
-Lemma instr_ok_same e h x :
-  fe_of e = 0 -> ff_of e = 0 -> instr_ok h x -> instr_ok (e :: h) x.
+(* pushing an event that moves neither floor *)
+Lemma instr_ok_ev f e h x :
+  floor_e (e :: h) = floor_e h -> floor_f (e :: h) = floor_f h -> instr_ok f h x -> instr_ok f (e :: h) x.
 Proof.
-  intros A B. destruct x as [op st|k]; cbn [instr_ok floor_e floor_f]; rewrite ?A, ?B; cbn [Nat.max]; [auto|].
-  intros [H1 H2]. split; [exact H1 | apply justified_cons; exact H2].
+  intros A B. destruct x as [op st|b|j]; cbn [instr_ok]; rewrite A, ?B; [auto| |].
+  - intros (H1 & H2 & H3 & H4 & H5). repeat split; auto; [apply justified_cons; exact H3|].
+    destruct H5 as [H5|[H5 H6]]; [left; exact H5 | right; split; [exact H5 | right; exact H6]].
+  - intros (H1 & H2 & H3 & H4 & H5). repeat split; auto. apply justified_cons; exact H5.
+Qed.
+Lemma Forall_instr_ok_ev f e h l :
+  floor_e (e :: h) = floor_e h -> floor_f (e :: h) = floor_f h ->
+  Forall (instr_ok f h) l -> Forall (instr_ok f (e :: h)) l.
+Proof. intros A B F. eapply Forall_impl; [|exact F]. intros x. apply instr_ok_ev; assumption. Qed.
+
+(* pushing a completing abandon-finalize of j0: floor_e unchanged, floor_f rises to S j0 *)
+Lemma instr_ok_ev_ab f e h x j0 :
+  floor_e (e :: h) = floor_e h -> floor_f (e :: h) <= Nat.max (S j0) (floor_f h) ->
+  is_exec x = false /\ j0 < iop x -> instr_ok f h x -> instr_ok f (e :: h) x.
+Proof.
+  intros A B [C1 C2]. destruct x as [op st|b|j]; cbn [instr_ok iop] in *; rewrite A; [discriminate| |].
+  - intros (H1 & H2 & H3 & H4 & H5). repeat split; auto; [lia | apply justified_cons; exact H3|].
+    destruct H5 as [H5|[H5 H6]]; [left; exact H5 | right; split; [exact H5 | right; exact H6]].
+  - intros (H1 & H2 & H3 & H4 & H5). repeat split; auto; [lia | apply justified_cons; exact H5].
 Qed.
 
-Lemma Forall_instr_ok_same e h l :
-  fe_of e = 0 -> ff_of e = 0 -> Forall (instr_ok h) l -> Forall (instr_ok (e :: h)) l.
-Proof. intros A B F. eapply Forall_impl; [|exact F]. intros x. apply instr_ok_same; assumption. Qed.
+Definition Xh (k : nat) : ev := EvExec k (ROk XExhausted).
 
 Record SInv (n : nat) (s : stack) (h : list ev) : Prop := {
   si_n : nops s = n;
   si_pos : 1 <= n;
-  si_wf : wf n (instrs s);
-  si_ok : Forall (instr_ok h) (instrs s);
-  si_h : hist_ok h
+  si_wf : wf n (strip (instrs s));
+  si_ab : ab_ok (instrs s);
+  si_f1 : 1 <= ntf s;
+  si_ff : floor_f h <= ntf s;
+  si_ok : Forall (instr_ok (ntf s) h) (instrs s);
+  si_h : hist_ok h;
+  si_exh : forall k, In (Xh k) h -> k = n - 1 \/ k <= ntf s
 }.
 
 Lemma sinv_new n s0 : new n = Some s0 -> SInv n s0 [].
 Proof.
   unfold new. destruct (Nat.eqb_spec n 0) as [E|E]; [discriminate|]. intros H; inversion H; subst; clear H.
-  constructor; cbn [nops instrs wf hist_ok iop]; try lia; auto.
-  first [ repeat split; auto; lia | constructor; [cbn; lia | constructor] ].
+  constructor; cbn [nops instrs ntf strip wf hist_ok iop ab_ok ab_head floor_f]; try lia; auto;
+    first [ repeat split; auto; lia | constructor; [cbn; lia | constructor] | intros k [] ].
 Qed.
 
 Ltac inv_forall :=
@@ -176,103 +246,117 @@ Ltac inv_forall :=
   | H : Forall _ (_ :: _) |- _ => inversion H; subst; clear H
   end.
 
+Ltac exh_tac Hexh :=
+  let k := fresh "k" in let E := fresh "E" in
+  intros k [E|E]; [ unfold Xh in E; try discriminate E; inversion E; subst; lia
+                  | destruct (Hexh k E); lia ].
+Ltac ok_same :=
+  first [ apply Forall_instr_ok_ev; [reflexivity|reflexivity|assumption]
+        | apply instr_ok_ev; [reflexivity|reflexivity|cbn [instr_ok]; auto] ].
+Ltac abh := cbn [ab_ok ab_head]; auto.
+
+Ltac s9 Hpos Hexh :=
+  constructor; cbn [nops instrs ntf];
+  [> reflexivity | exact Hpos | | | lia | (cbn [floor_f ff_of]; lia) |
+   | (cbn [hist_ok ev_ok]; repeat split; try tauto; lia) | exh_tac Hexh ].
+
 Lemma sinv_pop n s h p : SInv n s h -> SInv n (nx s p) (ev_of (cl s p) p ++ h).
 Proof.
-  intros [Hn Hpos Hwf Hok Hh].
+  intros [Hn Hpos Hwf Hab Hf1 Hff Hok Hh Hexh].
   pop_cases s p; subst; cbn [ev_of app]; try rewrite Ea; try rewrite Ef;
-    inv_forall; cbn [instr_ok] in *;
-    pose proof (floor_f_le_Se h) as FE; pose proof (floor_e_le_f h) as EF;
-    pose proof Hwf as Hwf0; cbn [wf iop] in Hwf.
-  - (* empty *) constructor; cbn [nops instrs]; auto.
+    pose proof Hok as Hok0; inv_forall; cbn [instr_ok] in *; cbn [strip] in Hwf;
+    pose proof Hwf as Hwf0; cbn [wf iop] in Hwf; pose proof Hab as Hab0; cbn [ab_ok] in Hab.
+  - (* empty *) constructor; cbn [nops instrs ntf]; auto.
   - (* Ready, last *)
-    destruct Hwf as (W1 & W2 & W3 & W4).
-    constructor; cbn [nops instrs]; auto.
-    + destruct st; [exact Hwf0 | exact W4].
-    + destruct st; [constructor; [apply instr_ok_same; auto|]|]; apply Forall_instr_ok_same; auto.
-    + cbn [hist_ok ev_ok]. auto.
+    destruct Hwf as (W1 & W2 & W3 & W4). destruct Hab as [Ha1 Ha2]. s9 Hpos Hexh.
+    + destruct st; cbn [strip]; [exact Hwf0 | exact W4].
+    + destruct st; [exact Hab0 | exact Ha2].
+    + destruct st; [constructor; [ok_same|]|]; ok_same.
   - (* Ready, not last *)
-    destruct Hwf as (W1 & W2 & W3 & W4).
-    constructor; cbn [nops instrs]; auto.
-    + destruct st.
-      * cbn [wf iop is_upper rank]. destruct rest; [|destruct W3; discriminate]. repeat split; auto; lia.
+    destruct Hwf as (W1 & W2 & W3 & W4). destruct Hab as [Ha1 Ha2]. s9 Hpos Hexh.
+    + destruct st; cbn [strip].
+      * cbn [wf iop is_upper rank]. destruct (strip rest); [|destruct W3; discriminate]. repeat split; auto; lia.
       * cbn [wf iop is_upper rank]. split; [lia|]. split; [auto|]. split; [|exact W4].
-        destruct rest as [|y rest]; [auto|]. destruct W3 as [_ W3]. cbn [rank] in W3. split; [reflexivity|lia].
+        destruct (strip rest) as [|y r]; [auto|]. destruct W3 as [_ W3]. cbn [rank] in W3. split; [reflexivity|lia].
+    + destruct st; abh.
     + destruct st.
-      * constructor; [cbn [instr_ok floor_e fe_of]; lia|].
-        constructor; [apply instr_ok_same; auto | apply Forall_instr_ok_same; auto].
-      * constructor; [cbn [instr_ok floor_e fe_of]; lia | apply Forall_instr_ok_same; auto].
-    + cbn [hist_ok ev_ok]. auto.
+      * constructor; [cbn [instr_ok floor_e fe_of]; lia|]. constructor; ok_same.
+      * constructor; [cbn [instr_ok floor_e fe_of]; lia | ok_same].
   - (* exec Pending *)
-    constructor; cbn [nops instrs]; auto.
-    + constructor; [apply instr_ok_same; auto | apply Forall_instr_ok_same; auto].
-    + cbn [hist_ok ev_ok]. auto.
+    s9 Hpos Hexh; [exact Hwf0 | exact Hab0 | constructor; ok_same].
   - (* NeedsMore *)
-    constructor; cbn [nops instrs]; auto.
-    + eapply wf_tail; exact Hwf0.
-    + apply Forall_instr_ok_same; auto.
-    + cbn [hist_ok ev_ok]. auto.
+    s9 Hpos Hexh; [eapply wf_tail; exact Hwf0 | tauto | ok_same].
   - (* HasMore, last: error, instruction pushed back *)
-    constructor; cbn [nops instrs]; auto.
-    + constructor; [apply instr_ok_same; auto | apply Forall_instr_ok_same; auto].
-    + cbn [hist_ok ev_ok]. auto.
+    s9 Hpos Hexh; [exact Hwf0 | exact Hab0 | constructor; ok_same].
   - (* HasMore, not last *)
-    destruct Hwf as (W1 & W2 & W3 & W4).
-    constructor; cbn [nops instrs]; auto.
-    + cbn [wf iop is_upper rank]. split; [lia|]. split; [auto|].
+    destruct Hwf as (W1 & W2 & W3 & W4). s9 Hpos Hexh.
+    + cbn [strip wf iop is_upper rank]. split; [lia|]. split; [auto|].
       split; [split; [reflexivity|destruct st; lia]|]. auto.
-    + constructor; [cbn [instr_ok floor_e fe_of]; lia|].
-      constructor; [apply instr_ok_same; auto | apply Forall_instr_ok_same; auto].
-    + cbn [hist_ok ev_ok]. auto.
+    + abh.
+    + constructor; [cbn [instr_ok floor_e fe_of]; lia|]. constructor; ok_same.
   - (* Exhausted, last *)
-    constructor; cbn [nops instrs wf]; auto. cbn [hist_ok ev_ok]. auto.
+    s9 Hpos Hexh; [exact I | exact I | constructor].
   - (* Exhausted, not last *)
-    destruct Hwf as (W1 & W2 & W3 & W4).
-    constructor; cbn [nops instrs]; auto.
-    + cbn [wf iop is_upper rank]. repeat split; auto; lia.
-    + constructor; [cbn [instr_ok floor_e fe_of]; lia|]. constructor; [|constructor].
-      cbn [instr_ok floor_f ff_of]. split; [lia|]. left. replace (S op - 1) with op by lia. left. reflexivity.
-    + cbn [hist_ok ev_ok]. auto.
+    destruct Hwf as (W1 & W2 & W3 & W4). s9 Hpos Hexh.
+    + cbn [strip]. rewrite strip_abandons. cbn [strip wf iop is_upper rank]. repeat split; auto; lia.
+    + cbn [ab_ok]. split; [exact I|]. apply ab_ok_seq. lia.
+    + constructor; [cbn [instr_ok floor_e fe_of]; lia|].
+      apply Forall_app. split.
+      * apply Forall_forall. intros x Hx. apply in_map_iff in Hx. destruct Hx as (j & Ej & Hj).
+        apply in_seq in Hj. subst x. cbn [instr_ok floor_e floor_f fe_of ff_of].
+        repeat split; try lia. right. right. exists op. split; [lia | left; reflexivity].
+      * constructor; [|constructor]. cbn [instr_ok floor_e floor_f fe_of ff_of].
+        repeat split; try lia.
+        -- left. replace (S op - 1) with op by lia. left. reflexivity.
+        -- destruct (le_lt_dec (S op) f0); [left; lia|right]. split; [lia|].
+           replace (S op - 1) with op by lia. left. reflexivity.
   - (* exec RErr *)
-    constructor; cbn [nops instrs]; auto.
-    + eapply wf_tail; exact Hwf0.
-    + apply Forall_instr_ok_same; auto.
-    + cbn [hist_ok ev_ok]. auto.
+    s9 Hpos Hexh; [eapply wf_tail; exact Hwf0 | tauto | ok_same].
   - (* IFin 0: panic *)
-    constructor; cbn [nops instrs]; auto. eapply wf_tail; exact Hwf0.
+    constructor; cbn [nops instrs ntf]; auto; [eapply wf_tail; exact Hwf0 | tauto].
   - (* Finalized, last *)
-    destruct Hwf as (W1 & W2 & W3 & W4).
-    destruct rest; [|destruct W3; discriminate].
-    constructor; cbn [nops instrs wf]; auto.
-    cbn [hist_ok ev_ok]. repeat split; try tauto; lia.
+    destruct Hab as [Ha1 Ha2]. destruct rest; [|cbn [ab_head] in Ha1; contradiction].
+    s9 Hpos Hexh; [exact I | exact I | constructor].
   - (* Finalized, not last *)
-    destruct Hwf as (W1 & W2 & W3 & W4).
-    destruct rest; [|destruct W3; discriminate].
-    constructor; cbn [nops instrs]; auto.
-    + cbn [wf iop]. repeat split; auto; lia.
-    + constructor; [|constructor]. cbn [instr_ok floor_f ff_of]. split; [lia|].
-      right. replace (S op - 1) with op by lia. left. reflexivity.
-    + cbn [hist_ok ev_ok]. repeat split; try tauto; lia.
+    destruct Hwf as (W1 & W2 & W3 & W4). destruct Hab as [Ha1 Ha2].
+    destruct rest; [|cbn [ab_head] in Ha1; contradiction]. s9 Hpos Hexh.
+    + cbn [strip wf iop]. repeat split; auto; lia.
+    + abh.
+    + constructor; [|constructor]. cbn [instr_ok floor_e floor_f fe_of ff_of].
+      repeat split; try lia. right. left. replace (S op - 1) with op by lia. left. reflexivity.
   - (* NeedsDrain, last: error *)
-    destruct Hwf as (W1 & W2 & W3 & W4).
-    destruct rest; [|destruct W3; discriminate].
-    constructor; cbn [nops instrs wf]; auto.
-    cbn [hist_ok ev_ok]. repeat split; try tauto; lia.
+    destruct Hab as [Ha1 Ha2]. destruct rest; [|cbn [ab_head] in Ha1; contradiction].
+    s9 Hpos Hexh; [exact I | exact I | constructor].
   - (* NeedsDrain, not last *)
-    destruct Hwf as (W1 & W2 & W3 & W4).
-    destruct rest; [|destruct W3; discriminate].
-    constructor; cbn [nops instrs]; auto.
-    + cbn [wf iop]. repeat split; auto; lia.
+    destruct Hwf as (W1 & W2 & W3 & W4). destruct Hab as [Ha1 Ha2].
+    destruct rest; [|cbn [ab_head] in Ha1; contradiction]. s9 Hpos Hexh.
+    + cbn [strip wf iop]. repeat split; auto; lia.
+    + abh.
     + constructor; [|constructor]. cbn [instr_ok floor_e fe_of]. lia.
-    + cbn [hist_ok ev_ok]. repeat split; try tauto; lia.
   - (* fin Pending *)
-    constructor; cbn [nops instrs]; auto.
-    + constructor; [apply instr_ok_same; auto | apply Forall_instr_ok_same; auto].
-    + cbn [hist_ok ev_ok]. repeat split; try tauto; lia.
+    s9 Hpos Hexh; [exact Hwf0 | exact Hab0 |].
+    constructor; [apply instr_ok_ev; [reflexivity|reflexivity|cbn [instr_ok]; tauto] | ok_same].
   - (* fin RErr *)
-    constructor; cbn [nops instrs]; auto.
-    + eapply wf_tail; exact Hwf0.
-    + apply Forall_instr_ok_same; auto.
-    + cbn [hist_ok ev_ok]. repeat split; try tauto; lia.
+    s9 Hpos Hexh; [eapply wf_tail; exact Hwf0 | tauto | ok_same].
+  - (* abandon Finalized *)
+    pose proof (ab_above _ _ Hab0) as AB. destruct Hab as [Ha1 Ha2].
+    s9 Hpos Hexh; [exact Hwf0 | exact Ha2 |].
+    apply Forall_forall. intros x Hx.
+    apply (instr_ok_ev_ab _ _ _ _ op); [cbn [floor_e fe_of]; lia | cbn [floor_f ff_of]; lia | |].
+    + rewrite Forall_forall in AB. apply AB. exact Hx.
+    + match goal with H : Forall _ rest |- _ => rewrite Forall_forall in H; apply H; exact Hx end.
+  - (* abandon NeedsDrain *)
+    pose proof (ab_above _ _ Hab0) as AB. destruct Hab as [Ha1 Ha2].
+    s9 Hpos Hexh; [exact Hwf0 | exact Ha2 |].
+    apply Forall_forall. intros x Hx.
+    apply (instr_ok_ev_ab _ _ _ _ op); [cbn [floor_e fe_of]; lia | cbn [floor_f ff_of]; lia | |].
+    + rewrite Forall_forall in AB. apply AB. exact Hx.
+    + match goal with H : Forall _ rest |- _ => rewrite Forall_forall in H; apply H; exact Hx end.
+  - (* abandon Pending *)
+    s9 Hpos Hexh; [exact Hwf0 | exact Hab0 |].
+    constructor; [apply instr_ok_ev; [reflexivity|reflexivity|cbn [instr_ok]; tauto] | ok_same].
+  - (* abandon RErr *)
+    s9 Hpos Hexh; [exact Hwf0 | tauto | ok_same].
 Qed.
 
 Lemma sinv_reach n s h : reach n s h -> SInv n s h.
@@ -293,17 +377,23 @@ Proof. pose proof (floor_e_app post (e :: pre)). cbn [floor_e] in *. lia. Qed.
 Definition fin_completes (a : res pfin) : bool :=
   match a with ROk FFinalized | ROk FNeedsDrain => true | _ => false end.
 
-(* (a) once finalize of j has answered Finalized/NeedsDrain, every later finalize call (whatever it
-       answers) is for a strictly larger operator: at most once per j, strictly increasing order;
-   (b) finalize j is only ever called after operator j-1 answered Exhausted or finalize (j-1)
-       answered Finalized; and j >= 1. *)
+(* handle_finalize calls come from FinalizeOperator AND AbandonOperator; the history does not
+   distinguish them, and the theorem covers both:
+   (a) once handle_finalize(j) has answered Finalized/NeedsDrain, every later handle_finalize call
+       (whatever it answers, from either instruction) is for a strictly larger operator: every
+       operator receives AT MOST ONE completing finalize, and all completing finalizes of a run
+       happen in strictly increasing operator order (in particular the abandon-finalizes of
+       ntf..k-1 run in increasing order and all before IFin (S k));
+   (b) handle_finalize(j) is only ever called when j >= 1 and operator j-1 answered Exhausted, or
+       finalize (j-1) answered Finalized, or (abandon) some operator k > j answered Exhausted. *)
 Theorem stack_finalize_once_in_order n s h :
   reach n s h ->
   (forall post k b mid j a pre,
      h = post ++ EvFin k b :: mid ++ EvFin j a :: pre -> fin_completes a = true -> j < k) /\
   (forall post j a pre,
      h = post ++ EvFin j a :: pre ->
-     1 <= j /\ (In (EvExec (j - 1) (ROk XExhausted)) pre \/ In (EvFin (j - 1) (ROk FFinalized)) pre)).
+     1 <= j /\ (In (EvExec (j - 1) (ROk XExhausted)) pre \/ In (EvFin (j - 1) (ROk FFinalized)) pre \/
+                exists k, j < k /\ In (EvExec k (ROk XExhausted)) pre)).
 Proof.
   intros R. pose proof (si_h _ _ _ (sinv_reach _ _ _ R)) as Hh. split.
   - intros post k b mid j a pre E Ha. subst h.
@@ -312,37 +402,34 @@ Proof.
     destruct a as [[| |]|]; try discriminate; cbn [ff_of] in M; lia.
   - intros post j a pre E. subst h. apply hist_ok_mid in Hh. cbn [ev_ok] in Hh. tauto.
 Qed.
+Definition px (a : pexec) : poll := {| on_exec := ROk a; on_fin := ROk FFinalized |}.
 Example stack_finalize_once_in_order_hyps :
   exists n s h post k b mid j a pre, reach n s h /\
     h = post ++ EvFin k b :: mid ++ EvFin j a :: pre /\ fin_completes a = true.
 Proof.
-  pose (px := fun a => {| on_exec := ROk a; on_fin := ROk FFinalized |}).
-  pose (r := run_h {| nops := 3; instrs := [IExec 0 true] |} []
-                   [px XExhausted; px XNeedsMore; px XReady; px XReady]).
+  pose (r := run_h (mk 3) [] [px XExhausted; px XNeedsMore; px XReady; px XReady]).
   exists 3, (fst r), (snd r), [], 2, (ROk FFinalized), [], 1, (ROk FFinalized),
     [EvExec 1 (ROk XNeedsMore); EvExec 0 (ROk XExhausted)].
   split; [apply reach_run_h; apply reach_new; reflexivity | split; reflexivity].
 Qed.
 
-(* an operator that answered Exhausted, and every operator upstream of it, is never called again *)
+(* an operator that answered Exhausted, and every operator upstream of it, is never EXECUTED again
+   (upstream operators may still be finalized by AbandonOperator) *)
 Theorem stack_exhausted_ops_never_run_again n s h :
   reach n s h ->
-  forall post i pre e, h = post ++ EvExec i (ROk XExhausted) :: pre -> In e post -> i < ev_op e.
+  forall post i pre j a, h = post ++ EvExec i (ROk XExhausted) :: pre -> In (EvExec j a) post -> i < j.
 Proof.
-  intros R post i pre e E Hin. pose proof (si_h _ _ _ (sinv_reach _ _ _ R)) as Hh. subst h.
-  destruct (in_split _ _ Hin) as (a & b & Eab). subst post.
+  intros R post i pre j a E Hin. pose proof (si_h _ _ _ (sinv_reach _ _ _ R)) as Hh. subst h.
+  destruct (in_split _ _ Hin) as (x & y & Eab). subst post.
   rewrite <- app_assoc in Hh. cbn [app] in Hh. apply hist_ok_mid in Hh.
-  pose proof (floor_e_mid b (EvExec i (ROk XExhausted)) pre) as Me.
-  pose proof (floor_f_mid b (EvExec i (ROk XExhausted)) pre) as Mf.
-  cbn [fe_of ff_of] in Me, Mf.
-  destruct e as [i' a'|j' a']; cbn [ev_ok ev_op] in *; [lia | destruct Hh as (F & _ & _); lia].
+  pose proof (floor_e_mid y (EvExec i (ROk XExhausted)) pre) as Me.
+  cbn [fe_of ev_ok] in *. lia.
 Qed.
 Example stack_exhausted_ops_never_run_again_hyps :
-  exists n s h post i pre e, reach n s h /\ h = post ++ EvExec i (ROk XExhausted) :: pre /\ In e post.
+  exists n s h post i pre j a, reach n s h /\ h = post ++ EvExec i (ROk XExhausted) :: pre /\ In (EvExec j a) post.
 Proof.
-  pose (px := fun a => {| on_exec := ROk a; on_fin := ROk FFinalized |}).
-  pose (r := run_h {| nops := 2; instrs := [IExec 0 true] |} [] [px XExhausted; px XNeedsMore]).
-  exists 2, (fst r), (snd r), [EvExec 1 (ROk XNeedsMore)], 0, [], (EvExec 1 (ROk XNeedsMore)).
+  pose (r := run_h (mk 2) [] [px XExhausted; px XNeedsMore]).
+  exists 2, (fst r), (snd r), [EvExec 1 (ROk XNeedsMore)], 0, [], 1, (ROk XNeedsMore).
   split; [apply reach_run_h; apply reach_new; reflexivity | split; [reflexivity | left; reflexivity]].
 Qed.
 
@@ -352,17 +439,16 @@ Theorem stack_finished_is_final n s h p s' j :
   is_last s j = true /\ on_fin p = ROk FFinalized /\ instrs s' = [] /\
   forall p', pop_next s' p' = (s', Finished, CNone).
 Proof.
-  intros R H. pose proof (si_wf _ _ _ (sinv_reach _ _ _ R)) as Hwf. revert H.
+  intros R H. pose proof (si_ab _ _ _ (sinv_reach _ _ _ R)) as Hab. revert H.
   pop_cases s p; intros H; inversion H; subst; clear H; try congruence.
-  cbn [wf] in Hwf. destruct Hwf as (_ & _ & W3 & _).
-  destruct rest; [|destruct W3; discriminate].
+  cbn [ab_ok] in Hab. destruct Hab as [Ha1 _].
+  destruct rest; [|cbn [ab_head] in Ha1; contradiction].
   split; [first [reflexivity | apply Nat.eqb_refl]|]. split; [reflexivity|]. split; [reflexivity|]. intros p'. reflexivity.
 Qed.
 Example stack_finished_is_final_hyps :
   exists n s h p s' j, reach n s h /\ pop_next s p = (s', Finished, CFin j).
 Proof.
-  pose (px := fun a => {| on_exec := ROk a; on_fin := ROk FFinalized |}).
-  pose (r := run_h {| nops := 2; instrs := [IExec 0 true] |} [] [px XExhausted; px XNeedsMore]).
+  pose (r := run_h (mk 2) [] [px XExhausted; px XNeedsMore]).
   exists 2, (fst r), (snd r), (px XReady). eexists. exists 1.
   split; [apply reach_run_h; apply reach_new; reflexivity | reflexivity].
 Qed.
@@ -393,9 +479,7 @@ Qed.
 Example pipe_completed_stays_completed_hyps :
   exists pl answers pl' rest evs, pipe_poll pl answers = (pl', PDone, rest, evs).
 Proof.
-  pose (px := fun a => {| on_exec := ROk a; on_fin := ROk FFinalized |}).
-  exists {| pstack := {| nops := 2; instrs := [IExec 0 true] |}; profile_taken := false |},
-    [px XExhausted; px XNeedsMore; px XReady].
+  exists {| pstack := mk 2; profile_taken := false |}, [px XExhausted; px XNeedsMore; px XReady].
   eexists. eexists. eexists. reflexivity.
 Qed.
 
@@ -408,10 +492,10 @@ Theorem pipe_repoll_after_error_continues :
     exists answers2 pl'' r rest2 evs2,
       pipe_poll pl' answers2 = (pl'', r, rest2, evs2) /\ evs2 <> [].
 Proof.
-  pose (px := fun a => {| on_exec := a; on_fin := RErr |}).
-  eexists. exists [px (ROk XReady); px RErr]. eexists. eexists. eexists. eexists.
+  pose (py := fun a => {| on_exec := a; on_fin := RErr |}).
+  eexists. exists [py (ROk XReady); py RErr]. eexists. eexists. eexists. eexists.
   split; [reflexivity|]. split; [vm_compute; reflexivity|].
-  exists [px (ROk XPending)]. eexists. eexists. eexists. eexists.
+  exists [py (ROk XPending)]. eexists. eexists. eexists. eexists.
   split; [vm_compute; reflexivity | discriminate].
 Qed.
 (* worse: after an operator error a re-poll can report SUCCESS (Ready(Ok)) without any finalize *)
@@ -421,75 +505,206 @@ Theorem pipe_repoll_after_error_can_report_done :
     pipe_poll {| pstack := s0; profile_taken := false |} answers = (pl', PErr e, rest, evs) /\
     exists pl'' rest2, pipe_poll pl' [] = (pl'', PDone, rest2, []).
 Proof.
-  pose (px := fun a => {| on_exec := a; on_fin := RErr |}).
-  eexists. exists [px RErr]. eexists. eexists. eexists. eexists.
+  pose (py := fun a => {| on_exec := a; on_fin := RErr |}).
+  eexists. exists [py RErr]. eexists. eexists. eexists. eexists.
   split; [reflexivity|]. split; [vm_compute; reflexivity|].
   eexists. eexists. vm_compute. reflexivity.
 Qed.
 
-(* ---------- 4a. termination measure ---------- *)
-(* progress of the pipeline = how far the BOTTOM instruction (the current pipeline start, or the
-   pending finalize) has advanced; work in flight = sum over the stack of (n - operator). *)
-Definition prog (x : instr) : nat := match x with IExec b _ => 2 * b | IFin b => 2 * b - 1 end.
-Definition M1 (s : stack) : nat :=
-  match instrs s with [] => 0 | _ => 2 * nops s - prog (last (instrs s) (IFin 0)) end.
-Definition M2 (s : stack) : nat := list_sum (map (fun x => nops s - iop x) (instrs s)).
-(* the only answers that put new work on the stack: HasMore (any operator) and Ready from a
-   pipeline-start instruction -- i.e. "a new batch entered the pipeline" *)
-Definition pushes_work (s : stack) (p : poll) : bool :=
+(* ---------- NEW: Exhausted at k finalizes every not-yet-finalized upstream operator? ---------- *)
+Definition fin_done (h : list ev) (j : nat) : bool :=
+  existsb (fun e => match e with EvFin j' a => (j' =? j) && fin_completes a | _ => false end) h.
+Definition exhausted (h : list ev) (j : nat) : bool :=
+  existsb (fun e => match e with EvExec j' (ROk XExhausted) => j' =? j | _ => false end) h.
+
+(* FULL statement wanted: on a run without RErr/Panic, when the stack reports Finished, every
+   operator j with 1 <= j < k upstream of an operator k that answered Exhausted has received a
+   completing handle_finalize.  REFUTED: after Exhausted at k the stack is
+   [Exec(k+1); Abandon ntf..k-1; Fin(k+1)] and ntf is already k; if Exec(k+1) answers Exhausted too,
+   instructions.clear() drops the pending Abandons and the new range (ntf..k+1) = {k} does not
+   contain them.  Witness n = 5: Ready(0) Ready(1) Exhausted(2) Exhausted(3) NeedsMore(4)
+   Finalized(abandon 2) Finalized(fin 4) -> Finished; operator 1 never gets a finalize (and is not
+   exhausted itself). *)
+Theorem stack_exhausted_finalizes_all_upstream_refuted :
+  exists s0 script s h p,
+    new 5 = Some s0 /\ run_h s0 [] script = (s, h) /\
+    Forall (fun q => on_exec q <> RErr /\ on_fin q <> RErr) script /\
+    (forall pre q post, script = pre ++ q :: post ->
+       ctl (fst (run_h s0 [] pre)) q = Continue) /\
+    ctl s p = Finished /\ cl s p = CFin 4 /\
+    exhausted h 2 = true /\ fin_done h 1 = false /\ exhausted h 1 = false.
+Proof.
+  eexists. exists [px XReady; px XReady; px XExhausted; px XExhausted; px XNeedsMore; px XReady].
+  eexists. eexists. exists (px XReady).
+  split; [reflexivity|]. split; [reflexivity|].
+  split; [repeat constructor; discriminate|].
+  split; [|repeat split; reflexivity].
+  intros pre q post E.
+  destruct pre as [|a1 [|a2 [|a3 [|a4 [|a5 [|a6 [|a7 pre]]]]]]]; inversion E; subst; try reflexivity.
+Qed.
+
+(* What holds.  Discipline `ab_step_ok`: (i) no AbandonOperator's handle_finalize fails (RErr), and
+   (ii) no execute answers Exhausted while an IAbandon is still on the stack.  On every run from
+   `new n` that respects it, every operator j with 1 <= j < next_to_finalize is covered: it received
+   a completing handle_finalize, or it is a pending IAbandon on the stack, or it answered Exhausted
+   itself.  What is missing for the full statement is (ii): the engine must not drop pending
+   AbandonOperator instructions when the stack is cleared (or must not advance next_to_finalize
+   before they ran). *)
+Definition has_abandon (l : list instr) : bool :=
+  existsb (fun x => match x with IAbandon _ => true | _ => false end) l.
+Definition ab_step_ok (s : stack) (p : poll) : bool :=
   match instrs s with
-  | IExec _ st :: _ => match on_exec p with ROk XHasMore => true | ROk XReady => st | _ => false end
-  | _ => false
+  | IAbandon _ :: _ => match on_fin p with RErr => false | _ => true end
+  | IExec _ _ :: _ => match on_exec p with ROk XExhausted => negb (has_abandon (instrs s)) | _ => true end
+  | _ => true
   end.
+Inductive reachD (n : nat) : stack -> list ev -> Prop :=
+| reachD_new s0 : new n = Some s0 -> reachD n s0 []
+| reachD_pop s h p : reachD n s h -> ab_step_ok s p = true -> reachD n (nx s p) (ev_of (cl s p) p ++ h).
 
-Lemma wf_last n d : forall rest x, wf n (x :: rest) -> prog (last (x :: rest) d) <= prog x.
+Lemma reachD_reach n s h : reachD n s h -> reach n s h.
+Proof. induction 1; [apply reach_new; assumption | apply reach_pop; assumption]. Qed.
+
+Definition covered (s : stack) (h : list ev) (j : nat) : Prop :=
+  fin_done h j = true \/ In (IAbandon j) (instrs s) \/ exhausted h j = true.
+
+Lemma fin_done_cons e h j : fin_done h j = true -> fin_done (e :: h) j = true.
+Proof. unfold fin_done. cbn [existsb]. intros H. rewrite H. apply orb_true_r. Qed.
+Lemma exhausted_cons e h j : exhausted h j = true -> exhausted (e :: h) j = true.
+Proof. unfold exhausted. cbn [existsb]. intros H. rewrite H. apply orb_true_r. Qed.
+
+Lemma has_abandon_false l j : has_abandon l = false -> ~ In (IAbandon j) l.
 Proof.
-  induction rest as [|y r IH]; intros x W; [cbn [last]; lia|].
-  change (last (x :: y :: r) d) with (last (y :: r) d).
-  cbn [wf] in W. destruct W as (_ & _ & [U Rk] & W'). specialize (IH y W').
-  destruct x as [j [|]|k]; try discriminate. destruct y as [i [|]|b]; cbn [rank prog] in *; lia.
+  induction l as [|x l IH]; cbn [has_abandon existsb In]; [tauto|].
+  destruct x; cbn [orb]; try discriminate; intros H [E|E]; try discriminate; apply IH; assumption.
 Qed.
 
-(* Every Continue step that does not let a new batch in strictly decreases (M1, M2)
-   lexicographically; M1 <= 2n and M2 are naturals, so between two batch-producing answers only
-   finitely many Continue steps happen, and after the last such answer the loop stops. *)
-Theorem stack_terminates n s h p :
-  reach n s h -> ctl s p = Continue -> pushes_work s p = false ->
-  M1 (nx s p) < M1 s \/ (M1 (nx s p) = M1 s /\ M2 (nx s p) < M2 s).
+Lemma exhausted_in h k : In (Xh k) h -> exhausted h k = true.
 Proof.
-  intros R. pose proof (sinv_reach _ _ _ R) as [Hn Hpos Hwf _ _]. clear R.
-  unfold pushes_work, M1, M2.
-  pop_cases s p; intros Hc Hw; try discriminate; subst;
-    pose proof (wf_last _ (IFin 0) _ _ Hwf) as WL; cbn [wf iop] in Hwf;
-    destruct Hwf as (W1 & W2 & W3 & W4); subst;
-    destruct rest as [|y r]; try (destruct W3; discriminate);
-    unfold list_sum in *; cbn [last map fold_right prog iop] in *; try lia.
-Qed.
-Example stack_terminates_hyps :
-  exists n s h p, reach n s h /\ ctl s p = Continue /\ pushes_work s p = false.
-Proof.
-  exists 2, {| nops := 2; instrs := [IExec 0 true] |}, [], {| on_exec := ROk XExhausted; on_fin := RErr |}.
-  split; [apply reach_new; reflexivity | split; reflexivity].
+  unfold exhausted. intros H. apply existsb_exists. exists (Xh k). split; [exact H|].
+  cbn. apply Nat.eqb_refl.
 Qed.
 
-(* a batch-producing step leaves M1 alone and adds at most n to M2 *)
-Theorem stack_work_step_bounded n s h p :
-  reach n s h -> ctl s p = Continue -> pushes_work s p = true ->
-  M1 (nx s p) = M1 s /\ M2 (nx s p) <= M2 s + n.
+Ltac cov_weak C :=
+  let j := fresh "j" in let Hj := fresh "Hj" in let D := fresh "D" in let A := fresh "A" in let X := fresh "X" in
+  intros j Hj; destruct (C j Hj) as [D|[A|X]];
+  [ left; first [exact D | apply fin_done_cons; exact D]
+  | right; left; cbn [instrs In] in *; try (destruct A as [A|A]; [discriminate A|]); tauto
+  | right; right; first [exact X | apply exhausted_cons; exact X] ].
+
+Lemma cov_fin_complete f0 b h a l' :
+  f0 <= b -> (b <= f0 \/ (b <= S f0 /\ In (EvExec (b - 1) (ROk XExhausted)) h)) ->
+  (forall j, 1 <= j < f0 -> fin_done h j = true \/ In (IAbandon j) [IFin b] \/ exhausted h j = true) ->
+  fin_completes a = true ->
+  forall j, 1 <= j < Nat.max f0 (S b) ->
+    fin_done (EvFin b a :: h) j = true \/ In (IAbandon j) l' \/ exhausted (EvFin b a :: h) j = true.
 Proof.
-  intros R. pose proof (sinv_reach _ _ _ R) as [Hn Hpos Hwf _ _]. clear R.
-  unfold pushes_work, M1, M2.
-  pop_cases s p; intros Hc Hw; try discriminate; subst;
-    destruct rest as [|y r]; unfold list_sum in *; cbn [last map fold_right prog iop] in *; try lia.
+  intros K1 K2 C Hc j Hj. destruct (Nat.eq_dec j b) as [E|E].
+  - left. subst j. unfold fin_done. cbn [existsb]. rewrite Nat.eqb_refl, Hc. reflexivity.
+  - destruct (le_lt_dec f0 j) as [G|G].
+    + right. right. apply exhausted_cons. apply exhausted_in.
+      destruct K2 as [K2|[K2 K3]]; [lia|]. replace j with (b - 1) by lia. exact K3.
+    + destruct (C j (conj (proj1 Hj) G)) as [D|[A|X]];
+      [left; apply fin_done_cons; exact D | destruct A as [A|A]; [discriminate A|destruct A]
+      | right; right; apply exhausted_cons; exact X].
 Qed.
 
-Theorem stack_M1_bounded n s h : reach n s h -> M1 s <= 2 * n.
+Lemma cov_step n s h p :
+  reach n s h -> (forall j, 1 <= j < ntf s -> covered s h j) -> ab_step_ok s p = true ->
+  forall j, 1 <= j < ntf (nx s p) -> covered (nx s p) (ev_of (cl s p) p ++ h) j.
 Proof.
-  intros R. pose proof (sinv_reach _ _ _ R) as [Hn _ _ _ _]. unfold M1. destruct (instrs s); lia.
+  intros R. pose proof (sinv_reach _ _ _ R) as [Hn Hpos Hwf Hab Hf1 Hff Hok Hh Hexh]. clear R.
+  unfold covered, ab_step_ok.
+  pop_cases s p; intros C Hd; subst; cbn [ev_of app]; try rewrite Ea; try rewrite Ef;
+    try discriminate Hd; inv_forall; cbn [instr_ok] in *.
+  - (* empty *) exact C.
+  - (* Ready last *) destruct st; cov_weak C.
+  - destruct st; cov_weak C.
+  - cov_weak C.
+  - cov_weak C.
+  - cov_weak C.
+  - cov_weak C.
+  - (* Exhausted, last *)
+    apply negb_true_iff in Hd. intros j Hj. destruct (C j Hj) as [D|[A|X]];
+      [left; apply fin_done_cons; exact D | exfalso; exact (has_abandon_false _ _ Hd A)
+      | right; right; apply exhausted_cons; exact X].
+  - (* Exhausted, not last *)
+    apply negb_true_iff in Hd. intros j Hj. cbn [instrs].
+    destruct (le_lt_dec f0 j) as [G|G].
+    + right. left. right. apply in_or_app. left. apply in_map. apply in_seq. lia.
+    + destruct (C j (conj (proj1 Hj) G)) as [D|[A|X]];
+      [left; apply fin_done_cons; exact D | exfalso; exact (has_abandon_false _ _ Hd A)
+      | right; right; apply exhausted_cons; exact X].
+  - cov_weak C.
+  - (* panic *) cov_weak C.
+  - (* Finalized, last *)
+    cbn [ab_ok] in Hab; destruct Hab as [Ha1 _]; destruct rest; [|cbn [ab_head] in Ha1; contradiction].
+    cbn [instrs] in *. apply cov_fin_complete; try tauto; reflexivity.
+  - (* Finalized, not last *)
+    cbn [ab_ok] in Hab; destruct Hab as [Ha1 _]; destruct rest; [|cbn [ab_head] in Ha1; contradiction].
+    cbn [instrs] in *. apply cov_fin_complete; try tauto; reflexivity.
+  - (* NeedsDrain, last *)
+    cbn [ab_ok] in Hab; destruct Hab as [Ha1 _]; destruct rest; [|cbn [ab_head] in Ha1; contradiction].
+    cbn [instrs] in *. apply cov_fin_complete; try tauto; reflexivity.
+  - (* NeedsDrain, not last *)
+    cbn [ab_ok] in Hab; destruct Hab as [Ha1 _]; destruct rest; [|cbn [ab_head] in Ha1; contradiction].
+    cbn [instrs] in *. apply cov_fin_complete; try tauto; reflexivity.
+  - cov_weak C.
+  - cov_weak C.
+  - (* abandon Finalized *)
+    intros j Hj. cbn [instrs] in *. destruct (Nat.eq_dec j op) as [E|E].
+    + left. subst j. unfold fin_done. cbn [existsb fin_completes]. rewrite Nat.eqb_refl. reflexivity.
+    + destruct (C j Hj) as [D|[A|X]];
+      [left; apply fin_done_cons; exact D
+      | right; left; destruct A as [A|A]; [inversion A; congruence | exact A]
+      | right; right; apply exhausted_cons; exact X].
+  - (* abandon NeedsDrain *)
+    intros j Hj. cbn [instrs] in *. destruct (Nat.eq_dec j op) as [E|E].
+    + left. subst j. unfold fin_done. cbn [existsb fin_completes]. rewrite Nat.eqb_refl. reflexivity.
+    + destruct (C j Hj) as [D|[A|X]];
+      [left; apply fin_done_cons; exact D
+      | right; left; destruct A as [A|A]; [inversion A; congruence | exact A]
+      | right; right; apply exhausted_cons; exact X].
+  - (* abandon Pending *)
+    intros j Hj. destruct (C j Hj) as [D|[A|X]];
+      [left; apply fin_done_cons; exact D | right; left; exact A | right; right; apply exhausted_cons; exact X].
 Qed.
 
-(* ---------- 2. ghost batch buffers: each produced batch is consumed exactly once ---------- *)
-(* bufs i = true: buffer i (output of operator i = input of operator i+1) holds an unconsumed batch *)
+Lemma cov_reachD n s h : reachD n s h -> forall j, 1 <= j < ntf s -> covered s h j.
+Proof.
+  induction 1 as [s0 H|s h p R IH D].
+  - unfold new in H. destruct (n =? 0); [discriminate|]. inversion H; subst. cbn [ntf]. intros j Hj. lia.
+  - apply (cov_step n); [apply reachD_reach; exact R | exact IH | exact D].
+Qed.
+
+(* On disciplined runs, when the stack is empty (= the next pop_next reports Finished; in particular
+   right after finalize(n-1) answered Finalized), every operator j with 1 <= j < k upstream of a
+   non-sink operator k that answered Exhausted has received its completing handle_finalize -- exactly
+   one, by stack_finalize_once_in_order (a) -- or answered Exhausted itself. *)
+Theorem stack_exhausted_finalizes_all_upstream_partial n s h :
+  reachD n s h ->
+  (forall j, 1 <= j < ntf s -> fin_done h j = true \/ In (IAbandon j) (instrs s) \/ exhausted h j = true) /\
+  (instrs s = [] -> forall k j, In (EvExec k (ROk XExhausted)) h -> k <> n - 1 -> 1 <= j < k ->
+     fin_done h j = true \/ exhausted h j = true).
+Proof.
+  intros R. pose proof (cov_reachD _ _ _ R) as C. split; [exact C|].
+  intros E k j Hk Hl Hj.
+  pose proof (si_exh _ _ _ (sinv_reach _ _ _ (reachD_reach _ _ _ R)) k Hk) as [X|X]; [contradiction|].
+  destruct (C j (conj (proj1 Hj) (Nat.lt_le_trans _ _ _ (proj2 Hj) X))) as [D|[A|Y]]; auto.
+  rewrite E in A. destruct A.
+Qed.
+Example stack_exhausted_finalizes_all_upstream_partial_hyps :
+  exists n s h k j, reachD n s h /\ instrs s = [] /\ In (EvExec k (ROk XExhausted)) h /\ k <> n - 1 /\ 1 <= j < k.
+Proof.
+  exists 4.
+  pose (sc := [px XReady; px XReady; px XExhausted; px XNeedsMore; px XReady; px XReady]).
+  exists (fst (run_h (mk 4) [] sc)), (snd (run_h (mk 4) [] sc)), 2, 1.
+  split.
+  - unfold sc. cbn [run_h].
+    repeat (apply reachD_pop; [|reflexivity]). apply reachD_new. reflexivity.
+  - split; [reflexivity|]. split; [|lia]. cbn. auto 10.
+Qed.
+
 Definition bufs := nat -> bool.
 Definition bset (b : bufs) (i : nat) (v : bool) : bufs := fun k => if k =? i then v else b k.
 
@@ -498,7 +713,11 @@ Definition bset (b : bufs) (i : nat) (v : bool) : bufs := fun k => if k =? i the
      (otherwise it would consume a batch twice / a batch that was never produced);
    - execute of a non-last operator i requires buffer i Empty (otherwise an unconsumed batch is
      overwritten = lost);
-   - finalize of operator j requires buffer j-1 Empty (otherwise a batch is left behind).
+   - finalize of operator j by FinalizeOperator requires buffer j-1 Empty (otherwise a batch is
+     left behind);
+   - finalize of operator j by AbandonOperator requires NOTHING and changes nothing: it only runs
+     for operators upstream of an exhausted one, whose buffers are abandoned on purpose (the
+     abandoned operator's input buffer may well be Full; that batch is deliberately dropped).
    Effects: Ready/NeedsMore consume the input (non-start only); HasMore/Pending/Exhausted leave it;
    Ready/HasMore/Exhausted fill the output (non-last only). *)
 Definition mon_step (s : stack) (p : poll) (b : bufs) : option bufs :=
@@ -518,6 +737,7 @@ Definition mon_step (s : stack) (p : poll) (b : bufs) : option bufs :=
           else None
       end
   | IFin j :: _ => if j =? 0 then Some b else if b (j - 1) then None else Some b
+  | IAbandon _ :: _ => Some b   (* abandon-finalize: no requirement, no effect (see comment) *)
   end.
 
 (* the one answer discipline the theorem needs: the execute call itself does not fail *)
@@ -536,7 +756,7 @@ Fixpoint mon_run (s : stack) (b : bufs) (script : list poll) : bool :=
       match mon_step s p b with None => false | Some b' => mon_run (nx s p) b' more end
   end.
 
-Definition lo_out (x : instr) : nat := match x with IExec j _ => j | IFin k => k - 1 end.
+Definition lo_out (x : instr) : nat := match x with IExec j _ => j | IFin k => k - 1 | IAbandon _ => 0 end.
 Definition input_ok (b : bufs) (x : instr) : Prop :=
   match x with IExec j false => 1 <= j /\ b (j - 1) = true | _ => True end.
 Fixpoint chain (b : bufs) (l : list instr) : Prop :=
@@ -549,7 +769,7 @@ Fixpoint chain (b : bufs) (l : list instr) : Prop :=
   end.
 Definition top_ok (b : bufs) (l : list instr) : Prop :=
   match l with [] => True | x :: _ => forall k, lo_out x <= k -> b k = false end.
-Definition rd (x : instr) : nat := match x with IExec j _ => j | IFin _ => 0 end.
+Definition rd (x : instr) : nat := match x with IExec j _ => j | _ => 0 end.
 Definition rd_hd (l : list instr) : nat := match l with [] => 0 | x :: _ => rd x end.
 
 Lemma chain_ext n b b' : forall l, wf n l -> (forall k, k < rd_hd l -> b k = b' k) -> chain b l -> chain b' l.
@@ -557,15 +777,15 @@ Proof.
   induction l as [|x rest IH]; intros W E C; [exact I|].
   cbn [wf] in W. destruct W as (W1 & W2 & W3 & W4). cbn [chain] in *. destruct C as (CI & CR & CC).
   cbn [rd_hd] in E. split; [|split].
-  - destruct x as [j [|]|k0]; cbn [input_ok rd] in *; auto. destruct CI as [C1 C2]. split; [exact C1|].
+  - destruct x as [j [|]|k0|k0]; cbn [input_ok rd] in *; auto. destruct CI as [C1 C2]. split; [exact C1|].
     rewrite <- E; [exact C2 | lia].
   - destruct rest as [|y r]; [exact I|]. destruct W3 as [U Rk].
-    destruct x as [j [|]|k0]; try discriminate. cbn [iop rd] in *.
+    destruct x as [j [|]|k0|k0]; try discriminate. cbn [iop rd] in *.
     intros k K1 K2. rewrite <- E; [apply CR; assumption | lia].
   - apply IH; [exact W4 | | exact CC]. intros k Hk. apply E.
     destruct rest as [|y r]; [cbn in Hk; lia|]. destruct W3 as [U Rk].
-    destruct x as [j [|]|k0]; try discriminate.
-    destruct y as [i [|]|b0]; cbn [rank rd rd_hd] in *; lia.
+    destruct x as [j [|]|k0|k0]; try discriminate.
+    destruct y as [i [|]|b0|b0]; try (cbn [wf] in W4; tauto); cbn [rank rd rd_hd] in *; lia.
 Qed.
 
 Ltac bs T Rg :=
@@ -590,53 +810,61 @@ Ltac exec_prelude b T C Hwf :=
       rewrite Hin, ?Hout; cbn [negb andb]; rewrite ?if_same; (eexists; split; [reflexivity|])
   end.
 
+Lemma strip_if_exec (c : bool) op st l :
+  strip (if c then IExec op st :: l else l) = if c then IExec op st :: strip l else strip l.
+Proof. destruct c; reflexivity. Qed.
+
 Lemma bstep n s b p :
-  nops s = n -> wf n (instrs s) -> top_ok b (instrs s) -> chain b (instrs s) -> exec_err s p = false ->
-  exists b', mon_step s p b = Some b' /\ top_ok b' (instrs (nx s p)) /\ chain b' (instrs (nx s p)).
+  nops s = n -> wf n (strip (instrs s)) -> top_ok b (strip (instrs s)) -> chain b (strip (instrs s)) ->
+  exec_err s p = false ->
+  exists b', mon_step s p b = Some b' /\ top_ok b' (strip (instrs (nx s p))) /\ chain b' (strip (instrs (nx s p))).
 Proof.
   intros Hn Hwf T C. unfold mon_step, exec_err.
-  pop_cases s p; intros He; try discriminate; subst.
+  pop_cases s p; intros He; try discriminate; subst;
+    cbn [strip] in *; rewrite ?strip_abandons, ?strip_if_exec; cbn [strip];
+    try (set (rs := strip rest) in *; clearbody rs).
   1: { exists b. auto. }
+  18-21: (exists b; auto).
   (* execute cases *)
   1-10: exec_prelude b T C Hwf.
   - (* Ready, last *)
     destruct st; [split; [exact T | cbn [chain]; auto]|].
     cbn [input_ok] in CI. destruct CI as [C1 C2].
     split.
-    + destruct rest as [|y r]; [exact I|]. cbn [top_ok]. intros k Hk. destruct W3 as [U Rk]. bs T CR.
+    + destruct rs as [|y r]; [exact I|]. cbn [top_ok]. intros k Hk. destruct W3 as [U Rk]. bs T CR.
     + eapply chain_ext; [exact W4 | | exact CC]. intros k Hk.
-      destruct rest as [|y r]; [cbn in Hk; lia|]. destruct W3 as [U Rk].
-      destruct y as [i [|]|b0]; cbn [rank rd rd_hd] in *; bs T CR.
+      destruct rs as [|y r]; [cbn in Hk; lia|]. destruct W3 as [U Rk].
+      destruct y as [i [|]|b0|b0]; try (cbn [wf] in W4; tauto); cbn [rank rd rd_hd] in *; bs T CR.
   - (* Ready, not last *)
     destruct st.
-    + destruct rest as [|y r]; [|destruct W3; discriminate].
+    + destruct rs as [|y r]; [|destruct W3; discriminate].
       split; [cbn [top_ok lo_out]; intros k Hk; bs T CR|].
       cbn [chain input_ok lo_out iop]. split; [split; [lia|bs T CR]|]. split; [intros k K1 K2; lia|auto].
     + cbn [input_ok] in CI. destruct CI as [C1 C2].
       split; [cbn [top_ok lo_out]; intros k Hk; bs T CR|].
       cbn [chain input_ok lo_out iop]. split; [split; [lia|bs T CR]|]. split.
-      * destruct rest as [|y r]; [exact I|]. intros k K1 K2. bs T CR.
+      * destruct rs as [|y r]; [exact I|]. intros k K1 K2. bs T CR.
       * eapply chain_ext; [exact W4 | | exact CC]. intros k Hk.
-        destruct rest as [|y r]; [cbn in Hk; lia|]. destruct W3 as [U Rk].
-        destruct y as [i [|]|b0]; cbn [rank rd rd_hd] in *; bs T CR.
+        destruct rs as [|y r]; [cbn in Hk; lia|]. destruct W3 as [U Rk].
+        destruct y as [i [|]|b0|b0]; try (cbn [wf] in W4; tauto); cbn [rank rd rd_hd] in *; bs T CR.
   - (* Pending *)
     split; [exact T | cbn [chain]; auto].
   - split; [exact T | cbn [chain]; auto].
   - (* NeedsMore *)
     destruct st.
-    + destruct rest as [|y r]; [|destruct W3; discriminate]. split; exact I.
+    + destruct rs as [|y r]; [|destruct W3; discriminate]. split; exact I.
     + cbn [input_ok] in CI. destruct CI as [C1 C2]. split.
-      * destruct rest as [|y r]; [exact I|]. cbn [top_ok]. intros k Hk. destruct W3 as [U Rk]. bs T CR.
+      * destruct rs as [|y r]; [exact I|]. cbn [top_ok]. intros k Hk. destruct W3 as [U Rk]. bs T CR.
       * eapply chain_ext; [exact W4 | | exact CC]. intros k Hk.
-        destruct rest as [|y r]; [cbn in Hk; lia|]. destruct W3 as [U Rk].
-        destruct y as [i [|]|b0]; cbn [rank rd rd_hd] in *; bs T CR.
+        destruct rs as [|y r]; [cbn in Hk; lia|]. destruct W3 as [U Rk].
+        destruct y as [i [|]|b0|b0]; try (cbn [wf] in W4; tauto); cbn [rank rd rd_hd] in *; bs T CR.
   - destruct st.
-    + destruct rest as [|y r]; [|destruct W3; discriminate]. split; exact I.
+    + destruct rs as [|y r]; [|destruct W3; discriminate]. split; exact I.
     + cbn [input_ok] in CI. destruct CI as [C1 C2]. split.
-      * destruct rest as [|y r]; [exact I|]. cbn [top_ok]. intros k Hk. destruct W3 as [U Rk]. bs T CR.
+      * destruct rs as [|y r]; [exact I|]. cbn [top_ok]. intros k Hk. destruct W3 as [U Rk]. bs T CR.
       * eapply chain_ext; [exact W4 | | exact CC]. intros k Hk.
-        destruct rest as [|y r]; [cbn in Hk; lia|]. destruct W3 as [U Rk].
-        destruct y as [i [|]|b0]; cbn [rank rd rd_hd] in *; bs T CR.
+        destruct rs as [|y r]; [cbn in Hk; lia|]. destruct W3 as [U Rk].
+        destruct y as [i [|]|b0|b0]; try (cbn [wf] in W4; tauto); cbn [rank rd rd_hd] in *; bs T CR.
   - (* HasMore, last *)
     destruct st; (split; [exact T | cbn [chain]; auto]).
   - (* HasMore, not last *)
@@ -644,11 +872,11 @@ Proof.
     cbn [chain input_ok lo_out iop]. split; [split; [lia|bs T CR]|]. split; [intros k K1 K2; lia|].
     split; [|split].
     + destruct st; [exact I|]. cbn [input_ok] in *. destruct CI as [C1 C2]. split; [exact C1|bs T CR].
-    + destruct rest as [|y r]; [exact I|]. intros k K1 K2. bs T CR.
+    + destruct rs as [|y r]; [exact I|]. intros k K1 K2. bs T CR.
     + eapply chain_ext; [exact W4 | | exact CC]. intros k Hk.
-      destruct rest as [|y r]; [cbn in Hk; lia|]. destruct W3 as [U Rk].
+      destruct rs as [|y r]; [cbn in Hk; lia|]. destruct W3 as [U Rk].
       destruct st; [discriminate|].
-      destruct y as [i [|]|b0]; cbn [rank rd rd_hd] in *; bs T CR.
+      destruct y as [i [|]|b0|b0]; try (cbn [wf] in W4; tauto); cbn [rank rd rd_hd] in *; bs T CR.
   - (* Exhausted, last *)
     split; exact I.
   - (* Exhausted, not last *)
@@ -658,68 +886,140 @@ Proof.
   - (* IFin 0 *)
     cbn [wf] in Hwf. lia.
   - (* Finalized, last *)
-    cbn [wf iop] in Hwf. destruct Hwf as (W1 & W2 & W3 & W4). destruct rest; [|destruct W3; discriminate].
+    cbn [wf iop] in Hwf. destruct Hwf as (W1 & W2 & W3 & W4). destruct rs; [|destruct W3; discriminate].
     cbn [top_ok lo_out] in T. rewrite T by lia. exists b. repeat split; exact I.
   - (* Finalized, not last *)
-    cbn [wf iop] in Hwf. destruct Hwf as (W1 & W2 & W3 & W4). destruct rest; [|destruct W3; discriminate].
+    cbn [wf iop] in Hwf. destruct Hwf as (W1 & W2 & W3 & W4). destruct rs; [|destruct W3; discriminate].
     cbn [top_ok lo_out] in T. rewrite T by lia. exists b. split; [reflexivity|].
     split; [cbn [top_ok lo_out]; intros k Hk; apply T; lia | cbn [chain input_ok]; auto].
   - (* NeedsDrain, last *)
-    cbn [wf iop] in Hwf. destruct Hwf as (W1 & W2 & W3 & W4). destruct rest; [|destruct W3; discriminate].
+    cbn [wf iop] in Hwf. destruct Hwf as (W1 & W2 & W3 & W4). destruct rs; [|destruct W3; discriminate].
     cbn [top_ok lo_out] in T. rewrite T by lia. exists b. repeat split; exact I.
   - (* NeedsDrain, not last *)
-    cbn [wf iop] in Hwf. destruct Hwf as (W1 & W2 & W3 & W4). destruct rest; [|destruct W3; discriminate].
+    cbn [wf iop] in Hwf. destruct Hwf as (W1 & W2 & W3 & W4). destruct rs; [|destruct W3; discriminate].
     cbn [top_ok lo_out] in T. rewrite T by lia. exists b. split; [reflexivity|].
     split; [cbn [top_ok lo_out]; intros k Hk; apply T; lia | cbn [chain input_ok]; auto].
   - (* fin Pending *)
     cbn [top_ok lo_out] in T. rewrite T by lia. exists b. split; [reflexivity|].
     split; [exact T | exact C].
   - (* fin RErr *)
-    cbn [wf iop] in Hwf. destruct Hwf as (W1 & W2 & W3 & W4). destruct rest; [|destruct W3; discriminate].
+    cbn [wf iop] in Hwf. destruct Hwf as (W1 & W2 & W3 & W4). destruct rs; [|destruct W3; discriminate].
     cbn [top_ok lo_out] in T. rewrite T by lia. exists b. repeat split; exact I.
 Qed.
 
 Lemma mon_run_ok n script : forall s h b,
-  reach n s h -> top_ok b (instrs s) -> chain b (instrs s) -> mon_run s b script = true.
+  reach n s h -> top_ok b (strip (instrs s)) -> chain b (strip (instrs s)) -> mon_run s b script = true.
 Proof.
   induction script as [|p more IH]; intros s h b R T C; cbn [mon_run]; [reflexivity|].
   destruct (exec_err s p) eqn:Ee; [reflexivity|].
-  pose proof (sinv_reach _ _ _ R) as [Hn _ Hwf _ _].
+  pose proof (sinv_reach _ _ _ R) as [Hn _ Hwf _ _ _ _ _ _].
   destruct (bstep n s b p Hn Hwf T C Ee) as (b' & M & T' & C'). rewrite M.
   apply (IH _ (ev_of (cl s p) p ++ h)); [apply reach_pop; exact R | exact T' | exact C'].
 Qed.
 
 (* On every run from `new n` (any n >= 1), as long as no execute call fails (RErr), no REQUIRES of
    the buffer monitor fails, whatever the operators answer: a batch is never consumed twice, never
-   overwritten before it is consumed, and none is left in a buffer when its consumer is finalized.
-   (Batches upstream of an operator that answers Exhausted are abandoned on purpose, see
-   stack_exhausted_ops_never_run_again.)  No further answer discipline is needed for this. *)
+   overwritten before it is consumed, and none is left in a buffer when its consumer is finalized by
+   FinalizeOperator.  (Batches upstream of an operator that answers Exhausted are abandoned on
+   purpose; AbandonOperator finalizes are unconstrained.)  No further answer discipline is needed. *)
 Theorem stack_delivers_each_batch_once n s0 script :
   new n = Some s0 -> mon_run s0 (fun _ => false) script = true.
 Proof.
   intros H. apply (mon_run_ok n script s0 []); [apply reach_new; exact H | |].
-  - destruct (instrs s0); [exact I | intros k _; reflexivity].
+  - destruct (strip (instrs s0)); [exact I | intros k _; reflexivity].
   - unfold new in H. destruct (n =? 0); [discriminate|]. inversion H; subst. cbn. auto.
 Qed.
 Example stack_delivers_each_batch_once_hyps : exists n s0, new n = Some s0.
 Proof. exists 3. eexists. reflexivity. Qed.
-(* the monitor is not vacuous: it does reject a bad stack/buffer combination ... *)
 Example mon_step_can_fail :
-  mon_step {| nops := 3; instrs := [IExec 1 false] |} {| on_exec := ROk XReady; on_fin := RErr |} (fun _ => false) = None.
+  mon_step {| nops := 3; instrs := [IExec 1 false]; ntf := 1 |}
+           {| on_exec := ROk XReady; on_fin := RErr |} (fun _ => false) = None.
 Proof. reflexivity. Qed.
-(* ... and WITHOUT the discipline (an execute call fails and the pipeline is polled again, which
-   poll_execute permits) a REQUIRES does fail: the failed operator's input batch is still in its
-   buffer when the source is asked to overwrite/produce again -- the batch is lost. *)
 Fixpoint mon_run_nodisc (s : stack) (b : bufs) (script : list poll) : bool :=
   match script with
   | [] => true
   | p :: more => match mon_step s p b with None => false | Some b' => mon_run_nodisc (nx s p) b' more end
   end.
+(* WITHOUT the discipline (an execute call fails and the pipeline is polled again, which
+   poll_execute permits) a REQUIRES fails: the failed operator's input batch is still in its
+   buffer when the source is asked to produce again -- the batch is overwritten = lost. *)
 Theorem stack_delivers_each_batch_once_without_discipline_refuted :
   exists s0 script, new 3 = Some s0 /\ mon_run_nodisc s0 (fun _ => false) script = false.
 Proof.
-  pose (px := fun a => {| on_exec := a; on_fin := RErr |}).
-  eexists. exists [px (ROk XReady); px RErr; px (ROk XReady)]. split; reflexivity.
+  pose (py := fun a => {| on_exec := a; on_fin := RErr |}).
+  eexists. exists [py (ROk XReady); py RErr; py (ROk XReady)]. split; reflexivity.
+Qed.
+
+(* ---------- 4a. termination measure ---------- *)
+(* progress = how far the BOTTOM instruction of the stripped stack (the current pipeline start, or
+   the pending FinalizeOperator) has advanced; work in flight = sum over the stack of (n - operator),
+   each pending AbandonOperator counting 1. *)
+Definition prog (x : instr) : nat := match x with IExec b _ => 2 * b | IFin b => 2 * b - 1 | IAbandon _ => 0 end.
+Definition M1 (s : stack) : nat :=
+  match strip (instrs s) with [] => 0 | _ => 2 * nops s - prog (last (strip (instrs s)) (IFin 0)) end.
+Definition wgt (n : nat) (x : instr) : nat := match x with IAbandon _ => 1 | _ => n - iop x end.
+Definition M2 (s : stack) : nat := list_sum (map (wgt (nops s)) (instrs s)).
+(* the only answers that put new work on the stack: HasMore (any operator) and Ready from a
+   pipeline-start instruction -- i.e. "a new batch entered the pipeline" *)
+Definition pushes_work (s : stack) (p : poll) : bool :=
+  match instrs s with
+  | IExec _ st :: _ => match on_exec p with ROk XHasMore => true | ROk XReady => st | _ => false end
+  | _ => false
+  end.
+
+Lemma wf_last n d : forall rest x, wf n (x :: rest) -> prog (last (x :: rest) d) <= prog x.
+Proof.
+  induction rest as [|y r IH]; intros x W; [cbn [last]; lia|].
+  change (last (x :: y :: r) d) with (last (y :: r) d).
+  cbn [wf] in W. destruct W as (_ & _ & [U Rk] & W'). specialize (IH y W').
+  destruct x as [j [|]|k|k]; try discriminate.
+  destruct y as [i [|]|b|b]; try (cbn [wf] in W'; tauto); cbn [rank prog] in *; lia.
+Qed.
+
+(* Every Continue step that does not let a new batch in strictly decreases (M1, M2)
+   lexicographically; M1 <= 2n and M2 are naturals, so between two batch-producing answers only
+   finitely many Continue steps happen, and after the last such answer the loop stops. *)
+Theorem stack_terminates n s h p :
+  reach n s h -> ctl s p = Continue -> pushes_work s p = false ->
+  M1 (nx s p) < M1 s \/ (M1 (nx s p) = M1 s /\ M2 (nx s p) < M2 s).
+Proof.
+  intros R. pose proof (sinv_reach _ _ _ R) as [Hn Hpos Hwf _ _ _ _ _ _]. clear R.
+  unfold pushes_work, M1, M2.
+  pop_cases s p; intros Hc Hw; try discriminate; subst;
+    cbn [strip] in *; rewrite ?strip_abandons in *; cbn [strip] in *;
+    try (pose proof (wf_last _ (IFin 0) _ _ Hwf) as WL; cbn [wf iop] in Hwf;
+         destruct Hwf as (W1 & W2 & W3 & W4));
+    unfold list_sum in *; cbn [map fold_right wgt iop] in *;
+    destruct (strip rest) as [|y r]; try (destruct W3; discriminate);
+    cbn [last prog] in *; try lia.
+Qed.
+Example stack_terminates_hyps :
+  exists n s h p, reach n s h /\ ctl s p = Continue /\ pushes_work s p = false.
+Proof.
+  exists 2, (mk 2), [], {| on_exec := ROk XExhausted; on_fin := RErr |}.
+  split; [apply reach_new; reflexivity | split; reflexivity].
+Qed.
+
+(* a batch-producing step leaves M1 alone and adds at most n to M2 *)
+Theorem stack_work_step_bounded n s h p :
+  reach n s h -> ctl s p = Continue -> pushes_work s p = true ->
+  M1 (nx s p) = M1 s /\ M2 (nx s p) <= M2 s + n.
+Proof.
+  intros R. pose proof (sinv_reach _ _ _ R) as [Hn Hpos Hwf _ _ _ _ _ _]. clear R.
+  unfold pushes_work, M1, M2.
+  pop_cases s p; intros Hc Hw; try discriminate; subst; cbn [strip] in *;
+    unfold list_sum in *; cbn [map fold_right wgt iop] in *;
+    destruct (strip rest) as [|y r]; cbn [last prog] in *; try lia.
+Qed.
+Example stack_work_step_bounded_hyps :
+  exists n s h p, reach n s h /\ ctl s p = Continue /\ pushes_work s p = true.
+Proof.
+  exists 2, (mk 2), [], (px XReady). split; [apply reach_new; reflexivity | split; reflexivity].
+Qed.
+
+Theorem stack_M1_bounded n s h : reach n s h -> M1 s <= 2 * n.
+Proof.
+  intros R. pose proof (sinv_reach _ _ _ R) as [Hn _ _ _ _ _ _ _ _]. unfold M1. destruct (strip (instrs s)); lia.
 Qed.
 
 (* ---------- Finished without finalize ---------- *)
@@ -733,19 +1033,19 @@ Theorem stack_finished_implies_sink_finalized_refuted :
     Forall (fun q => on_exec q <> RErr /\ on_fin q <> RErr) script /\
     ctl s p = Finished /\ has_fin h = false.
 Proof.
-  pose (px := fun a => {| on_exec := ROk a; on_fin := ROk FFinalized |}).
   eexists. exists [px XNeedsMore]. eexists. eexists. exists (px XReady).
   split; [reflexivity|]. split; [reflexivity|].
   split; [repeat constructor; discriminate | split; reflexivity].
 Qed.
 
 (* What holds: as long as every step so far returned Continue or Pending (no error, no panic) and
-   no pipeline-start instruction answered NeedsMore, the stack is not empty and its bottom is a
-   pipeline start or a finalize; so the first Finished is the one produced by finalize(n-1) =
-   Finalized.  Discipline for the lead to cross-check: sources (PollPull) never answer NeedsMore
-   by type; an operator in drain mode (IExec j true after NeedsDrain) must not answer NeedsMore. *)
+   no pipeline-start instruction answered NeedsMore, the stripped stack is not empty and its bottom
+   is a pipeline start or a FinalizeOperator; so the first Finished is the one produced by
+   finalize(n-1) = Finalized.  Discipline for the lead to cross-check: sources (PollPull) never
+   answer NeedsMore by type; an operator in drain mode (IExec j true after NeedsDrain) must not
+   answer NeedsMore. *)
 Definition bottom_ok (l : list instr) : Prop :=
-  l <> [] /\ is_upper (last l (IFin 0)) = false.
+  strip l <> [] /\ is_upper (last (strip l) (IFin 0)) = false.
 Definition start_needs_more (s : stack) (p : poll) : bool :=
   match instrs s with
   | IExec _ true :: _ => match on_exec p with ROk XNeedsMore => true | _ => false end
@@ -757,12 +1057,13 @@ Lemma bottom_ok_step n s h p :
   reach n s h -> bottom_ok (instrs s) -> quiet (ctl s p) = true -> start_needs_more s p = false ->
   bottom_ok (instrs (nx s p)).
 Proof.
-  intros R. pose proof (sinv_reach _ _ _ R) as [Hn Hpos Hwf _ _]. clear R.
+  intros R. pose proof (sinv_reach _ _ _ R) as [Hn Hpos Hwf _ _ _ _ _ _]. clear R.
   unfold bottom_ok, start_needs_more.
   pop_cases s p; intros [B1 B2] Hq Hs; try discriminate; try congruence; subst;
+    cbn [strip] in *; rewrite ?strip_abandons in *; cbn [strip] in *; try (split; assumption);
     cbn [wf iop] in Hwf; destruct Hwf as (W1 & W2 & W3 & W4);
-    try (destruct st); try discriminate;
-    destruct rest as [|y r]; try (destruct W3; discriminate); try discriminate;
+    try (destruct st); try discriminate; cbn [strip] in *;
+    destruct (strip rest) as [|y r]; try (destruct W3; discriminate); try discriminate;
     (split; [discriminate|]); cbn [last is_upper] in *; auto.
 Qed.
 
@@ -774,9 +1075,8 @@ Theorem stack_finished_only_by_sink_finalize_partial n script : forall s h,
   ctl s' p = Finished -> exists j, cl s' p = CFin j /\ is_last s' j = true /\ on_fin p = ROk FFinalized.
 Proof.
   induction script as [|q more IH]; intros s h R B p s' D Hf.
-  - subst s'. cbn [run_h fst] in *. destruct B as [B1 B2].
-    pose proof (sinv_reach _ _ _ R) as [Hn Hpos Hwf _ _].
-    revert Hf. unfold is_last. pop_cases s p; intros Hf; try discriminate; try congruence.
+  - subst s'. clear D. cbn [run_h fst] in *. destruct B as [B1 B2].
+    revert Hf. unfold is_last. pop_cases s p; intros Hf; try discriminate; cbn [strip] in *; try congruence.
     eexists. split; [reflexivity|]. split; [|reflexivity]. subst. apply Nat.eqb_refl.
   - subst s'. cbn [run_h] in *.
     destruct (D [] q more eq_refl) as [Q1 Q2]. cbn [run_h fst] in Q1, Q2.
@@ -789,8 +1089,7 @@ Example stack_finished_only_by_sink_finalize_partial_hyps :
        quiet (ctl (fst (run_h s h pre)) q) = true /\ start_needs_more (fst (run_h s h pre)) q = false) /\
     ctl (fst (run_h s h script)) p = Finished.
 Proof.
-  pose (px := fun a => {| on_exec := ROk a; on_fin := ROk FFinalized |}).
-  exists 2, [px XExhausted; px XNeedsMore], {| nops := 2; instrs := [IExec 0 true] |}, [], (px XReady).
+  exists 2, [px XExhausted; px XNeedsMore], (mk 2), [], (px XReady).
   split; [apply reach_new; reflexivity|]. split; [split; [discriminate | reflexivity]|].
   split; [|reflexivity].
   intros pre q post E.
@@ -802,6 +1101,8 @@ Print Assumptions stack_delivers_each_batch_once.
 Print Assumptions stack_delivers_each_batch_once_without_discipline_refuted.
 Print Assumptions stack_exhausted_ops_never_run_again.
 Print Assumptions stack_finalize_once_in_order.
+Print Assumptions stack_exhausted_finalizes_all_upstream_refuted.
+Print Assumptions stack_exhausted_finalizes_all_upstream_partial.
 Print Assumptions stack_terminates.
 Print Assumptions stack_work_step_bounded.
 Print Assumptions stack_M1_bounded.
